@@ -49,6 +49,8 @@ pub fn install_panic_hook() {
     }));
 }
 
+pub fn last_panic() -> String { LAST_PANIC.with(|p| p.borrow().clone()) }
+
 /// run `f`, converting a panic into `Err(site)`
 pub fn guarded<T>(f: impl FnOnce() -> T) -> Result<T, String> {
     GUARD_DEPTH.with(|d| *d.borrow_mut() += 1);
@@ -298,6 +300,12 @@ impl Machine {
                 };
                 let m2 = bc_components::EncryptedMessage::new(ct, aad, Nonce::from_data_ref(nonce).ok()?, bc_components::AuthenticationTag::from_data_ref(auth).ok()?);
                 match Envelope::try_from(m2) { Ok(s2) => Val::Env(e.replace_subject(s2)), Err(x) => Val::Err(err_kind(&x)) }
+            }
+            ["foreign_enc", ct, aad] => {
+                // an EncryptedMessage made outside the library (arbitrary additional data) offered as an envelope element
+                let nonce = Nonce::from_data_ref(vec![9u8; 12]).ok()?; let auth = bc_components::AuthenticationTag::from_data_ref(vec![8u8; 16]).ok()?;
+                let m = bc_components::EncryptedMessage::new(hex::decode(ct).ok()?, hex::decode(if *aad == "-" { "" } else { aad }).ok()?, nonce, auth);
+                res(Envelope::try_from(m))
             }
             ["misdeclare", e, other, k, n] => {
                 let key = SymmetricKey::from_data_ref(hex::decode(k).ok()?).ok()?;
